@@ -869,6 +869,12 @@ class Exec:
         raise Refuse('cast %s of %r to %s' % (kind, v, ty))
 
     def binop(self, st, op, a, b):
+        # an operand the executor has no value for (a constant of another crate, e.g. `Signature::LENGTH`) next to an integer: an
+        # unknown integer of the same width, one per constant (over-approximation: both outcomes of a comparison stay reachable)
+        if isinstance(a, VInt) and isinstance(b, (VAgg, VSym)) and not isinstance(b, VInt) and not (isinstance(b, VAgg) and b.fields):
+            b = self.sym_int(('extconst', term_str(self.to_term(st, b))), a.bits, a.signed)
+        elif isinstance(b, VInt) and isinstance(a, (VAgg, VSym)) and not isinstance(a, VInt) and not (isinstance(a, VAgg) and a.fields):
+            a = self.sym_int(('extconst', term_str(self.to_term(st, a))), b.bits, b.signed)
         if isinstance(a, VBool) and isinstance(b, VBool):
             if op == 'Eq':
                 return VBool(a.e == b.e)
